@@ -204,9 +204,6 @@ pub const F20: &str = "F20-blind-zero-value";
 pub const F21: &str = "F21-verify-zero-issuance";
 pub const F22: &str = "F22-surjection-inputs-abort";
 pub const F23: &str = "F23-rangeproof-full-range";
-pub const F24: &str = "F24-remove-count-underflow";
-pub const F25: &str = "F25-serde-taptree-serialize";
-pub const F26: &str = "F26-serde-hexbytes-capacity";
 pub const F27: &str = "F27-serde-commitment-length";
 /// input class of F18 at the PSET level: some input/output map carries a commitment-typed proprietary field
 /// (input: issuance value / inflation keys commitment; output: value / asset commitment) whose value is not 33 bytes long
@@ -244,7 +241,6 @@ fn set_emergency(case: &str) {
 }
 
 // ================================================================================================ verdicts
-pub const F17: &str = "F17-fee-sum-overflow";
 
 /// `class`: the input class a known finding is restricted to (None = no known finding applies to this input)
 fn verdict(obs: &Obs, class: Option<(&str, &str, &str)>, bound: Option<u64>) -> Option<String> {
@@ -781,19 +777,22 @@ pub fn own_mode() -> &'static str {
     static ON: OnceLock<bool> = OnceLock::new();
     if *ON.get_or_init(|| catch_unwind(|| { let x = std::hint::black_box(i64::MIN); std::hint::black_box(-x); }).is_err()) { "dbg" } else { "rel" }
 }
-pub const F19: &str = "F19-read-uint-size";
-// ---- script::read_uint with an arbitrary size
+// ---- script::read_uint with an arbitrary size (F19, fixed by fc1698d: an oversized size is Err(NumericOverflow))
 fn eval_ruint(w: &[&str]) -> Out {
     if w.len() != 5 { return Out::ok("harnesserr args".into()); }
     if w[2] != own_mode() { return Out::ok("harnesserr profile: replay this case with the other harness binary".into()); }
     let (Ok(size), Some(data)) = (w[3].parse::<usize>(), unhex_dash(w[4])) else { return Out::ok("harnesserr fields".into()) };
     let (r, obs) = guard(|| elements::script::read_uint(&data, size));
-    let res = match &r { Some(Ok(n)) => format!("ok {}", n), Some(Err(_)) => "err early".into(), None => "panic".into() };
-    let class = size >= 9 && data.len() >= size;
-    let mut out = finish(res, &obs, if class { Some((F19, "src/script.rs", "with overflow")) } else { None }, Some(small_bound(data.len())));
-    // overflow checks off: shifts by 64 and more are masked and the sum wraps — a value is returned for bytes that do not fit a usize
-    if out.pred_fail.is_none() && class && matches!(r, Some(Ok(_))) {
-        out.pred_fail = Some(format!("{}|read_uint returned a value for {} bytes (shift amounts >= 64 are masked, the sum wraps)", F19, size));
+    let res = match &r {
+        Some(Ok(n)) => format!("ok {}", n),
+        Some(Err(elements::script::Error::EarlyEndOfScript)) => "err early".into(),
+        Some(Err(elements::script::Error::NumericOverflow)) => "err overflow".into(),
+        Some(Err(_)) => "err other".into(),
+        None => "panic".into() };
+    let mut out = finish(res, &obs, None, Some(small_bound(data.len())));
+    // a value returned for more bytes than a usize holds cannot be their little-endian number
+    if out.pred_fail.is_none() && size > std::mem::size_of::<usize>() && matches!(r, Some(Ok(_))) {
+        out.pred_fail = Some(format!("read-uint-oversize|read_uint returned a value for {} bytes", size));
     }
     out
 }
@@ -817,12 +816,13 @@ fn eval_fees(w: &[&str]) -> Out {
         (per, allv)
     });
     let res = match &r { Some((per, all)) => format!("ok in={} all={}", if per.is_empty() { "-".into() } else { per.join(",") }, if all.is_empty() { "-".into() } else { all.join(",") }), None => "panic".into() };
-    let mut out = finish(res, &obs, if overflow { Some((F17, "", "attempt to add with overflow")) } else { None }, Some(1 << 20));
-    // overflow checks off: the sums wrap silently — the same finding seen through the value
+    // F17 (fixed by 8ea09fb): no known finding any more; the sums must be the exact sums capped at u64::MAX
+    let _ = overflow;
+    let mut out = finish(res, &obs, None, Some(1 << 20));
     if out.pred_fail.is_none() {
-        if let Some((per, _)) = &r {
-            let want: Vec<String> = exact.iter().map(|(a, v)| format!("{}:{}", a, v)).collect();
-            if *per != want { out.pred_fail = Some(format!("{}|fee_in returns a wrapped sum: {} instead of {}", if overflow { F17 } else { "fee-sum" }, per.join(","), want.join(","))); }
+        if let Some((per, all)) = &r {
+            let want: Vec<String> = exact.iter().map(|(a, v)| format!("{}:{}", a, (*v).min(u64::MAX as u128))).collect();
+            if *per != want || *all != want { out.pred_fail = Some(format!("fee-sum|fee_in / all_fees return {} / {} instead of the (saturated) sums {}", per.join(","), all.join(","), want.join(","))); }
         }
     }
     out
@@ -994,7 +994,14 @@ fn eval_explore(kind: &str, w: &[&str]) -> Out {
             p.add_output(pset::Output::new_explicit(Script::new(), 5, asset(3), None));
             if reset { p.global.tx_data = Default::default(); }       // the counters (private) fall back to 0 while the vectors hold one element each
             let (_, obs) = guard(|| { let mut q = p.clone(); let _ = q.remove_input(0); let mut q = p.clone(); let _ = q.remove_output(0); let mut q = p.clone(); let _ = q.remove_input(7); let _ = q.remove_output(7); });
-            finish("total".into(), &obs, if reset { Some((F24, "src/pset/mod.rs", "attempt to subtract with overflow")) } else { None }, Some(1 << 20))
+            // F24 (fixed by ba8083f): no known finding any more; the count must be the number of remaining elements
+            let _ = reset;
+            let mut out = finish("total".into(), &obs, None, Some(1 << 20));
+            if out.pred_fail.is_none() {
+                let consistent = guard(|| { let mut q = p.clone(); let a = q.remove_input(0).is_some(); let b = q.remove_output(0).is_some(); a && b && q.n_inputs() == q.inputs().len() && q.n_outputs() == q.outputs().len() }).0;
+                if consistent != Some(true) { out.pred_fail = Some("remove-count|after remove_input / remove_output the global counts differ from the number of remaining inputs / outputs".into()); }
+            }
+            out
         }
         "x-serde-taptree" => {
             // F25: TapTree derives Deserialize without the is_complete test of from_inner; serialising such a tree hits unreachable!()
@@ -1008,7 +1015,8 @@ fn eval_explore(kind: &str, w: &[&str]) -> Out {
                     let _ = serialize(&p);
                 }
             });
-            finish("total".into(), &obs, Some((F25, "src/pset/serialize.rs", "entered unreachable code")), Some(1 << 20))
+            // F25 (fixed by a868a45): no known finding any more
+            finish("total".into(), &obs, None, Some(1 << 20))
         }
         "x-cbor-params" => {
             // F26: dynafed's hex-bytes visitor reserves Vec::with_capacity(size_hint) — the CBOR array header is believed
@@ -1016,7 +1024,9 @@ fn eval_explore(kind: &str, w: &[&str]) -> Out {
             let Some(b) = unhex_dash(w[2]) else { return Out::ok("harnesserr hex".into()) };
             let huge = b.windows(9).any(|x| x[0] == 0x9b && u64::from_be_bytes(x[1..9].try_into().unwrap()) > (1 << 62));
             let (_, obs) = guard(|| { let _ = serde_cbor::from_slice::<elements::dynafed::Params>(&b); let _ = serde_cbor::from_slice::<BlockHeader>(&b); });
-            finish("total".into(), &obs, if huge { Some((F26, "alloc/src/raw_vec", "capacity overflow")) } else { None }, Some(small_bound(b.len()) + (1 << 20)))
+            // F26 (fixed by d4a049b): no known finding any more; the allocation predicate applies
+            let _ = huge;
+            finish("total".into(), &obs, None, Some(small_bound(b.len()) + (1 << 20)))
         }
         "x-cbor-commit" => {
             // F27: Value / Asset Deserialize (non-human-readable formats) reach secp256k1-zkp's own Deserialize for PedersenCommitment /
